@@ -20,6 +20,7 @@ package c10
 
 import (
 	"bytes"
+	"context"
 	"fmt"
 	"io"
 	"math/rand"
@@ -81,7 +82,12 @@ type srvCase struct {
 	Frag   string    `json:"frag"`
 	HCIdx  int       `json:"handler_close_on_request"` // -1: never
 	HCMode int       `json:"handler_close_mode"`
+	// Prefix: operations on the Server before the connection is served (it has no listener, so each is a no-op)
+	Prefix          int  `json:"prefix_op"`
+	CloseOnShutdown bool `json:"close_on_shutdown"`
 }
+
+var prefixOps = []string{"none", "Shutdown()", "Shutdown() twice", "ShutdownWithContext(Background)"}
 
 var connVals = []string{
 	"close", "close", "Close", "CLOSE", "cLoSe",
@@ -130,6 +136,10 @@ func genSrvCase(r *rand.Rand) srvCase {
 		c.HCIdx = r.Intn(n)
 		c.HCMode = 1 + r.Intn(len(hcModes)-1)
 	}
+	if r.Intn(3) == 0 {
+		c.Prefix = 1 + r.Intn(len(prefixOps)-1)
+	}
+	c.CloseOnShutdown = r.Intn(4) == 0
 	return c
 }
 
@@ -199,6 +209,7 @@ func runSrvCase(c *srvCase) srvObs {
 		DisableKeepalive:   c.DK,
 		MaxRequestsPerConn: c.MaxReq,
 		ReduceMemoryUsage:  c.RMU,
+		CloseOnShutdown:    c.CloseOnShutdown,
 		Logger:             nopLogger{},
 		Handler: func(ctx *fasthttp.RequestCtx) {
 			p := string(ctx.Path())
@@ -246,6 +257,16 @@ func runSrvCase(c *srvCase) srvObs {
 				o.Panic = p
 			}
 		}()
+		// a Shutdown of a server that is not listening returns at once and must leave no trace
+		switch c.Prefix {
+		case 1:
+			s.Shutdown() //nolint:errcheck
+		case 2:
+			s.Shutdown() //nolint:errcheck
+			s.Shutdown() //nolint:errcheck
+		case 3:
+			s.ShutdownWithContext(context.Background()) //nolint:errcheck
+		}
 		if err := s.ServeConn(conn); err != nil {
 			o.ServeErr = err.Error()
 		}
@@ -312,7 +333,7 @@ func (c *srvCase) class() string {
 		tl = append(tl, k)
 	}
 	sort.Ints(tl)
-	return fmt.Sprintf("n=%d dk=%v max=%d rmu=%v frag=%s hc=%s to=%v %v", len(c.Reqs), c.DK, c.MaxReq, c.RMU, c.Frag, hc, tl, l)
+	return fmt.Sprintf("n=%d dk=%v max=%d rmu=%v frag=%s hc=%s to=%v pre=%d cos=%v %v", len(c.Reqs), c.DK, c.MaxReq, c.RMU, c.Frag, hc, tl, c.Prefix, c.CloseOnShutdown, l)
 }
 
 // batch collects a history's event counts and hands them to mon in one go.
@@ -412,6 +433,8 @@ func judgeSrv(r0 *mon.Run, i int, c *srvCase, o *srvObs) {
 		switch {
 		case hasClose && stayedOpen:
 			r.Violation(i, "close-header-but-connection-kept", desc+" says close but the server went on reading/serving on the connection", payload(map[string]any{"response": j}))
+		case !hasClose && !stayedOpen && c.Prefix != 0:
+			r.Violation(i, "noop-shutdown-leaves-server-stopping", desc+fmt.Sprintf(" does not say close but the server closed the connection without reading again; before serving, %s had been called on the (not listening) server", prefixOps[c.Prefix]), payload(map[string]any{"response": j}))
 		case !hasClose && !stayedOpen:
 			r.Violation(i, "no-close-header-but-closed", desc+" does not say close but the server closed the connection without reading again", payload(map[string]any{"response": j}))
 		}
@@ -561,6 +584,15 @@ func runShutdown(r *mon.Run, idx int, sc shutCase) {
 		raw         []byte
 	}
 	var shutErr error
+	var reuse struct {
+		mode    int // 0: ServeConn afterwards; 1: second Shutdown, then ServeConn; 2: Serve on a new listener
+		written []byte
+		events  []netx.Event
+		resps   []*h1.Msg
+		eof2    bool
+		err     error
+	}
+	reuse.mode = idx % 3
 	ok := mon.Watchdog(120*time.Second, func() {
 		c, err := net.Dial("tcp", ln.Addr().String())
 		if err != nil {
@@ -597,6 +629,40 @@ func runShutdown(r *mon.Run, idx int, sc shutCase) {
 		res.last, res.eof, res.err = readResponses(c, &buf, sc.Prior+2, methods)
 		res.raw = buf
 		<-done
+		// ---- the server must serve normally again after the completed Shutdown
+		switch reuse.mode {
+		case 1:
+			s.Shutdown() //nolint:errcheck // a second Shutdown: nothing is listening any more
+		}
+		if reuse.mode <= 1 {
+			script := []byte("GET /a HTTP/1.1\r\nHost: h.test\r\n\r\nGET /b HTTP/1.1\r\nHost: h.test\r\n\r\n")
+			sc2 := netx.NewScripted(script, netx.FragBoundaries([]int{len(script) / 2, len(script)}))
+			s.ServeConn(sc2) //nolint:errcheck
+			reuse.written, reuse.events = sc2.Written(), sc2.Events()
+			return
+		}
+		ln2, err := net.Listen("tcp", "127.0.0.1:0")
+		if err != nil {
+			reuse.err = err
+			return
+		}
+		go s.Serve(ln2) //nolint:errcheck
+		c2, err := net.Dial("tcp", ln2.Addr().String())
+		if err != nil {
+			reuse.err = err
+			ln2.Close()
+			return
+		}
+		var buf2 []byte
+		fmt.Fprintf(c2, "GET /a HTTP/1.1\r\nHost: h.test\r\n\r\n")
+		reuse.resps, _, reuse.err = readResponses(c2, &buf2, 1, nil)
+		if reuse.err == nil {
+			fmt.Fprintf(c2, "GET /b HTTP/1.1\r\nHost: h.test\r\n\r\n")
+			reuse.resps, reuse.eof2, reuse.err = readResponses(c2, &buf2, 2, nil)
+		}
+		reuse.written = buf2
+		c2.Close()
+		s.Shutdown() //nolint:errcheck
 	})
 	if !ok {
 		r.Inconclusive(fmt.Sprintf("shutdown scenario %d: watchdog fired", idx))
@@ -621,6 +687,40 @@ func runShutdown(r *mon.Run, idx int, sc shutCase) {
 		if optionIn(m.Get("Connection"), "close") {
 			// it was followed by another served request on the same socket
 			r.Violation(idx, "close-header-but-connection-kept", fmt.Sprintf("real-socket scenario: response %d says close, yet the next request on the socket was served", j), pl)
+		}
+	}
+	// ---- reuse after the completed Shutdown: a response without close must leave the connection open
+	{
+		pl2 := map[string]any{"scenario": sc, "reuse_mode": reuse.mode, "written": string(reuse.written), "err": fmt.Sprint(reuse.err)}
+		var finals []*h1.Msg
+		if reuse.mode <= 1 {
+			all, _ := h1.ParseResponses(reuse.written, nil)
+			for _, m := range all {
+				if m.Fatal == "" && m.Status/100 != 1 {
+					finals = append(finals, m)
+				}
+			}
+		} else {
+			finals = reuse.resps
+		}
+		switch {
+		case reuse.err != nil && len(finals) == 0:
+			r.Inconclusive(fmt.Sprintf("shutdown scenario %d: reuse phase failed: %v", idx, reuse.err))
+		case len(finals) >= 1 && !optionIn(finals[0].Get("Connection"), "close") && len(finals) < 2:
+			r.Event("reuse_after_shutdown_checked", 1)
+			r.Violation(idx, "shutdown-leaves-server-stopping", fmt.Sprintf("after a completed Shutdown (reuse mode %d) the server answered the first request of a new keep-alive connection without Connection: close and then closed the connection: the second request got no response", reuse.mode), pl2)
+		case len(finals) == 2:
+			r.Event("reuse_after_shutdown_checked", 1)
+			if optionIn(finals[0].Get("Connection"), "close") {
+				r.Violation(idx, "close-header-but-connection-kept", "after a completed Shutdown: first response says close, yet the second request was served", pl2)
+			}
+		default:
+			r.Event("reuse_after_shutdown_checked", 1)
+			if len(finals) == 1 { // said close and closed: consistent, but nothing in the statement asks for it
+				r.Event("closed_without_stated_reason", 1)
+			} else {
+				r.Violation(idx, "no-response", "after a completed Shutdown the server did not answer a new connection", pl2)
+			}
 		}
 	}
 	last := res.last[sc.Prior]
@@ -652,10 +752,16 @@ type cliStep struct {
 	// CloseDelimited: no Content-Length, not chunked; the responder ends the body by closing the socket
 	// (HTTP/1.1 with Connection: close, or HTTP/1.0 without keep-alive)
 	CloseDelimited bool `json:"response_body_delimited_by_close"`
+	// StreamBody: resp.StreamBody is set for this call (the body is read through resp.BodyStream() and closed)
+	StreamBody bool `json:"resp_stream_body"`
 }
 
 type cliCase struct {
 	Steps []cliStep `json:"steps"`
+	// StreamAll: HostClient.StreamResponseBody; MaxConnDur: HostClient.MaxConnDuration = 1ns (every
+	// connection is past its lifetime at its next use: the client then asks for close itself)
+	StreamAll  bool `json:"host_client_stream_response_body"`
+	MaxConnDur bool `json:"host_client_max_conn_duration_1ns"`
 }
 
 var respConnVals = [][]string{
@@ -667,10 +773,13 @@ var respConnVals = [][]string{
 func genCliCase(r *rand.Rand) cliCase {
 	n := 2 + r.Intn(4)
 	var c cliCase
+	c.StreamAll = r.Intn(4) == 0
+	c.MaxConnDur = r.Intn(8) == 0
+	perStep := r.Intn(3) == 0
 	for i := 0; i < n; i++ {
 		st := cliStep{Post: r.Intn(4) == 0, ReqClose: r.Intn(10) == 0, V10: r.Intn(8) == 0,
 			Conn: respConnVals[r.Intn(len(respConnVals))], Chunked: r.Intn(5) == 0}
-		if k := len(c.Steps); k > 0 && c.Steps[k-1].CloseDelimited {
+		if k := len(c.Steps); k > 0 && (c.Steps[k-1].CloseDelimited || (c.Steps[k-1].saidClose() || c.Steps[k-1].V10 || c.Steps[k-1].ReqClose) && r.Intn(2) == 0) {
 			// the follow-up is a POST: no idempotent retry can hide a write to the dead connection
 			st.Post, st.ReqClose = true, false
 		}
@@ -682,6 +791,7 @@ func genCliCase(r *rand.Rand) cliCase {
 				st.Conn = [][]string{{"close"}, {"close"}, {"Close"}, {"keep-alive, close"}}[r.Intn(4)]
 			}
 		}
+		st.StreamBody = perStep && r.Intn(2) == 0
 		c.Steps = append(c.Steps, st)
 	}
 	if c.Steps[len(c.Steps)-1].CloseDelimited {
@@ -712,7 +822,8 @@ func (c *stepConn) Write(p []byte) (int, error) {
 }
 
 type rawConn struct {
-	writeSteps []int // steps during which the client wrote to this connection
+	writeSteps []int  // steps during which the client wrote to this connection
+	reqClose   []bool // parallel to steps: the request carried the close connection option
 	id         int
 	srv, cli   net.Conn
 	mu         sync.Mutex
@@ -742,6 +853,7 @@ func serveRaw(rc *rawConn, c *cliCase, wg *sync.WaitGroup) {
 			st := c.Steps[step]
 			rc.mu.Lock()
 			rc.steps = append(rc.steps, step)
+			rc.reqClose = append(rc.reqClose, optionIn(m.Get("Connection"), "close"))
 			if st.saidClose() && rc.saidAt < 0 {
 				rc.saidAt = len(rc.steps) - 1
 			}
@@ -789,6 +901,7 @@ func runCliCase(r *mon.Run, i int, c *cliCase) {
 		Addr:                "peer.test:80",
 		MaxConns:            8,
 		MaxIdleConnDuration: time.Hour,
+		StreamResponseBody:  c.StreamAll,
 		Dial: func(addr string) (net.Conn, error) {
 			a, b := net.Pipe()
 			mu.Lock()
@@ -800,6 +913,9 @@ func runCliCase(r *mon.Run, i int, c *cliCase) {
 			return &stepConn{Conn: b, rc: rc, cur: &cur}, nil
 		},
 	}
+	if c.MaxConnDur {
+		hc.MaxConnDuration = time.Nanosecond
+	}
 	dials := func() int { mu.Lock(); defer mu.Unlock(); return len(conns) }
 	type stepObs struct {
 		Err         string `json:"err,omitempty"`
@@ -807,6 +923,7 @@ func runCliCase(r *mon.Run, i int, c *cliCase) {
 		DialsAfter  int    `json:"dials_after"`
 		ConnsBefore int    `json:"conns_count_before"`
 		ConnsAfter  int    `json:"conns_count_after"`
+		Streamed    bool   `json:"body_was_streamed"`
 	}
 	obs := make([]stepObs, len(c.Steps))
 	var errs []string
@@ -829,14 +946,34 @@ func runCliCase(r *mon.Run, i int, c *cliCase) {
 			if st.ReqClose {
 				req.SetConnectionClose()
 			}
+			if st.StreamBody {
+				resp.StreamBody = true
+			}
 			obs[k].DialsBefore, obs[k].ConnsBefore = dials(), hc.ConnsCount()
 			err := hc.Do(req, resp)
+			var body []byte
+			if err == nil {
+				if bs := resp.BodyStream(); bs != nil {
+					// streamed: read to the end and close the stream, which hands the connection back
+					obs[k].Streamed = true
+					var rerr error
+					body, rerr = io.ReadAll(bs)
+					if cerr := resp.CloseBodyStream(); rerr == nil {
+						rerr = cerr
+					}
+					if rerr != nil {
+						err = fmt.Errorf("body stream: %w", rerr)
+					}
+				} else {
+					body = append(body, resp.Body()...)
+				}
+			}
 			obs[k].DialsAfter, obs[k].ConnsAfter = dials(), hc.ConnsCount()
 			if err != nil {
 				obs[k].Err = err.Error()
 				errs = append(errs, fmt.Sprintf("step %d: %v", k, err))
-			} else if want := fmt.Sprintf("answer-%d", k); string(resp.Body()) != want {
-				errs = append(errs, fmt.Sprintf("step %d: body %q want %q", k, resp.Body(), want))
+			} else if want := fmt.Sprintf("answer-%d", k); string(body) != want {
+				errs = append(errs, fmt.Sprintf("step %d: body %q want %q", k, body, want))
 			}
 			fasthttp.ReleaseRequest(req)
 			fasthttp.ReleaseResponse(resp)
@@ -870,23 +1007,55 @@ func runCliCase(r *mon.Run, i int, c *cliCase) {
 		r.Violation(i, "panic", fmt.Sprintf("HostClient.Do panicked: %v", panicked), pl)
 		return
 	}
-	keyFor := func(st *cliStep) string {
-		if st.CloseDelimited {
-			return "client-reused-connection-after-close-delimited-body"
-		}
-		exactIdx := -1
-		for y, v := range st.Conn {
-			if v == "close" {
-				exactIdx = y
+	// which requests carried the close option on the wire (SetConnectionClose by the caller, or by the
+	// client itself when MaxConnDuration had expired)
+	reqCloseOnWire := map[int]bool{}
+	for _, rc := range cs {
+		for x, step := range rc.steps {
+			if rc.reqClose[x] {
+				reqCloseOnWire[step] = true
 			}
 		}
+	}
+	// keyFor: why the connection that carried step k must not be used again ("" if it may), as a class key
+	keyFor := func(k int) string {
+		st := &c.Steps[k]
+		key := ""
 		switch {
-		case exactIdx < 0:
-			return "client-connection-close-token-not-recognised"
-		case exactIdx < len(st.Conn)-1:
-			return "client-connection-close-line-overridden-by-later-line"
+		case st.CloseDelimited:
+			key = "client-reused-connection-after-close-delimited-body"
+		case optionIn(st.Conn, "close"):
+			exactIdx := -1
+			for y, v := range st.Conn {
+				if v == "close" {
+					exactIdx = y
+				}
+			}
+			switch {
+			case obs[k].Streamed: // (the spelling classes are told apart on buffered responses)
+				key = "client-reused-connection-after-close"
+			case exactIdx < 0:
+				key = "client-connection-close-token-not-recognised"
+			case exactIdx < len(st.Conn)-1:
+				key = "client-connection-close-line-overridden-by-later-line"
+			default:
+				key = "client-reused-connection-after-close"
+			}
+		case st.V10 && !optionIn(st.Conn, "keep-alive"):
+			key = "client-reused-connection-after-http10-response"
+		case reqCloseOnWire[k]:
+			key = "client-reused-connection-after-request-close"
+		default:
+			return ""
 		}
-		return "client-reused-connection-after-close"
+		if obs[k].Streamed {
+			key += "-streamed-response"
+		}
+		return key
+	}
+	describe := func(k int) string {
+		st := &c.Steps[k]
+		return fmt.Sprintf("s%d (response HTTP/1.%d, Connection lines %q, body delimited by close: %v, streamed: %v; request carried close: %v)", k, map[bool]int{true: 0, false: 1}[st.V10], st.Conn, st.CloseDelimited, obs[k].Streamed, reqCloseOnWire[k])
 	}
 	violated := false
 	reused := 0
@@ -899,6 +1068,7 @@ func runCliCase(r *mon.Run, i int, c *cliCase) {
 		if len(rc.steps) > 1 {
 			reused += len(rc.steps) - 1
 		}
+		said := -1
 		for _, step := range rc.steps {
 			if c.Steps[step].saidClose() {
 				r.Event("client_close_responses", 1)
@@ -906,47 +1076,50 @@ func runCliCase(r *mon.Run, i int, c *cliCase) {
 					r.Event("client_close_delimited_responses", 1)
 				}
 			}
+			if keyFor(step) != "" {
+				r.Event("client_must_not_reuse_exchanges", 1)
+				if obs[step].Streamed {
+					r.Event("client_must_not_reuse_exchanges_streamed", 1)
+				}
+				if said < 0 {
+					said = step
+				}
+			}
 		}
-		if rc.saidAt < 0 {
-			continue
+		// `said` is the first exchange on this connection after which it must not be used again: the client
+		// must not write to this connection in any later step (successfully or not).
+		if said < 0 || obs[said].Err != "" {
+			continue // (an exchange the client reported as failed: nothing to demand)
 		}
-		// the first response on this connection that said close was given in step `said`:
-		// the client must not write to this connection in any later step (successfully or not).
-		said := rc.steps[rc.saidAt]
-		if obs[said].Err != "" {
-			continue // the client did not accept that response: nothing to demand
-		}
-		st := &c.Steps[said]
 		for _, ws := range rc.writeSteps {
 			if ws > said {
 				violated = true
-				r.Violation(i, keyFor(st), fmt.Sprintf("response to request s%d (Connection lines %q, body delimited by close: %v) said close, yet the client wrote request s%d to the same connection", said, st.Conn, st.CloseDelimited, ws), pl)
+				r.Violation(i, keyFor(said), fmt.Sprintf("after exchange %s the connection must not be reused, yet the client wrote request s%d to it", describe(said), ws), pl)
 				break
 			}
 		}
 	}
-	// pool accounting: a Do whose response said close must leave one connection less counted than
+	// pool accounting: such a Do must leave one connection less counted than
 	// (count before + connections dialled during the call).
 	for k := range c.Steps {
-		st := &c.Steps[k]
-		if !st.saidClose() || obs[k].Err != "" {
+		key := keyFor(k)
+		if key == "" || obs[k].Err != "" {
 			continue
 		}
 		r.Event("client_conns_count_checked", 1)
 		if lim := obs[k].ConnsBefore + (obs[k].DialsAfter - obs[k].DialsBefore) - 1; obs[k].ConnsAfter > lim {
 			violated = true
-			key := keyFor(st)
 			if key == "client-reused-connection-after-close" {
 				key = "client-kept-connection-after-close"
 			}
-			r.Violation(i, key, fmt.Sprintf("after the response to s%d (Connection lines %q, body delimited by close: %v) HostClient.ConnsCount()=%d (before the call %d, dialled during the call %d): the connection is still counted as usable", k, st.Conn, st.CloseDelimited, obs[k].ConnsAfter, obs[k].ConnsBefore, obs[k].DialsAfter-obs[k].DialsBefore), pl)
+			r.Violation(i, key, fmt.Sprintf("after exchange %s HostClient.ConnsCount()=%d (before the call %d, dialled during the call %d): the connection is still counted as usable", describe(k), obs[k].ConnsAfter, obs[k].ConnsBefore, obs[k].DialsAfter-obs[k].DialsBefore), pl)
 		}
 		// the follow-up must go to a freshly dialled connection
 		if k+1 < len(c.Steps) && obs[k+1].Err == "" && obs[k].ConnsAfter == 0 {
 			r.Event("client_followup_dials_checked", 1)
 			if obs[k+1].DialsAfter == obs[k+1].DialsBefore {
 				violated = true
-				r.Violation(i, keyFor(st), fmt.Sprintf("request s%d after a response that said close (s%d) was sent without dialling a new connection", k+1, k), pl)
+				r.Violation(i, keyFor(k), fmt.Sprintf("request s%d after exchange %s was sent without dialling a new connection", k+1, describe(k)), pl)
 			}
 		}
 	}
@@ -969,14 +1142,14 @@ func runCliCase(r *mon.Run, i int, c *cliCase) {
 		case len(st.Conn) > 0:
 			t = "other"
 		}
-		feat[fmt.Sprintf("%s/v10=%v/reqclose=%v/ch=%v/post=%v", t, st.V10, st.ReqClose, st.Chunked, st.Post)] = true
+		feat[fmt.Sprintf("%s/v10=%v/reqclose=%v/ch=%v/post=%v/stream=%v", t, st.V10, st.ReqClose, st.Chunked, st.Post, st.StreamBody || c.StreamAll)] = true
 	}
 	var fl []string
 	for k := range feat {
 		fl = append(fl, k)
 	}
 	sort.Strings(fl)
-	r.Case(fmt.Sprintf("client n=%d %v", len(c.Steps), fl), true)
+	r.Case(fmt.Sprintf("client n=%d maxconndur=%v %v", len(c.Steps), c.MaxConnDur, fl), true)
 	if r.WantSample() && i%7 == 3 {
 		r.Sample(map[string]any{"half": "client", "case": c, "connections": logs, "steps": obs})
 	}
@@ -1029,6 +1202,9 @@ func TestC10(t *testing.T) {
 			}
 			r.Case(c.class(), len(c.Reqs) >= 2 || must)
 			r.Event("histories", 1)
+			if c.Prefix != 0 {
+				r.Event("histories_after_noop_shutdown", 1)
+			}
 			judgeSrv(r, base+i, &c, &o)
 			if r.WantSample() && i%97 == 5 {
 				script, _, _ := c.script()
@@ -1064,7 +1240,10 @@ func TestC10(t *testing.T) {
 		r.Require("client_close_responses", nCli/4)
 		r.Require("client_reuses", nCli/10)
 		r.Require("client_close_delimited_responses", nCli/4)
+		r.Require("client_must_not_reuse_exchanges_streamed", nCli/4)
 		r.Require("client_conns_count_checked", nCli/2)
 		r.Require("timeout_responses_judged", nSrv/10)
+		r.Require("histories_after_noop_shutdown", nSrv/5)
+		r.Require("reuse_after_shutdown_checked", 8)
 	}
 }
